@@ -36,3 +36,13 @@ package autofile
 //@   atcall filePathForIndex requires [pathOfARotatedFile] index < maxIndex && maxIndex == gInfo.MaxIndex
 //@   loop 1:
 //@     invariant 0 <= i && gInfo.MinIndex + i <= gInfo.MaxIndex && 0 <= gInfo.MinIndex
+
+// Rotation moves the head only after everything buffered for it was flushed and synced: otherwise the
+// tail of a record stays in the buffer and lands at the START of the next head, which then begins
+// mid-record. The head becomes file maxIndex, and maxIndex moves on by one.
+//@ func (g *Group) RotateFile()
+//@   for C15
+//@   requires g != nil && g.Head != nil && g.headBuf != nil
+//@   modifies *
+//@   atcall Rename requires [headFlushedAndSyncedBeforeItMoves] called(Writer.Flush) && called(AutoFile.Sync) && called(AutoFile.closeFile) && oldpath == headPath && newpath == indexPath
+//@   atcall filePathForIndex requires [headBecomesFileMaxIndex] index == g.maxIndex && maxIndex == toInt64(g.maxIndex + 1)
